@@ -7,6 +7,8 @@ names x visibility x owner against Python's own mangling, lambdas under their as
 configured ignore lists (read afresh from the configuration, never cached); a method
 counts as the class's own only when its defining class is positively resolved to that class.
 Which members `inspect` enumerates for arbitrary modules is not decided.
+Further clauses (added later): C27.lambda interprets _get_lambda_assigned_name over single-line, parenthesised
+and continued module-level lambdas.
 """
 
 from __future__ import annotations
